@@ -171,7 +171,7 @@ class P(Prop):
             # no breakers: the implementation keeps one period with the single switchboard
             sts_c = core.coq_list([core.coq_bool_list(r) for r in sts]) if brk else "[[]]"
             parts.append("check_case " + core.coq_nat_list(swbs) + " "
-                         + core.coq_list([f"({a},{b})" for a, b in brk]) + " " + sts_c + " "
+                         + core.coq_edges(brk) + " " + sts_c + " "
                          + core.coq_nat_list(o["change"]) + " "
                          + core.coq_list([core.coq_nat_list(m) for m in o["maps"]]) + " "
                          + core.coq_nat_list(o["nobus"]))
@@ -261,5 +261,5 @@ class P(Prop):
         swbs, brk, sts = case["swbs"], case["breakers"], self.all_sts(case)[-1]
         sts_c = core.coq_list([core.coq_bool_list(r) for r in sts]) if brk else "[[]]"
         rc, out = core.eval_terms_show(self.ID, self.CHECK_REQUIRE,
-            f"(change_index {sts_c}, config {core.coq_list([f'({a},{b})' for a, b in brk])} {core.coq_nat_list(swbs)} {sts_c})")
+            f"(change_index {sts_c}, config {core.coq_edges(brk)} {core.coq_nat_list(swbs)} {sts_c})")
         return out[-800:]
